@@ -88,23 +88,40 @@ Lemma eng_plain_lex tok : plain_tok tok ->
   EngineModel.is_escape tok = false /\ EngineModel.to_long tok = None /\ EngineModel.to_short tok = None.
 Proof. intros [He [Hl Hs]]. rewrite lex_is_escape, lex_to_long, lex_to_short. auto. Qed.
 
-(** `<value>` of a single-valued positional: back in [ValueDone], index + 1 *)
-Lemma eng_pos_single tok a pos :
-  no_sub pc tok -> plain_tok tok -> get_pos pc pos = Some a -> a_is_multiple a = false ->
-  shadow_step tok cur pos false ValueDone = SNext cur (pos + 1) false ValueDone.
+(** a word the parser does not read as a subcommand WHERE IT STANDS ([evaf] = an argument of the level was seen) is
+    none for the engine either: not UTF-8, behind an argument of a level with [args_conflicts_with_subcommands], or
+    no name or alias of a subcommand *)
+Lemma eng_not_sub tok b evaf : possible_subcommand pc tok evaf = None ->
+  (if (b && negb (is_set s_args_negate_subs cur && evaf)) && utf8_valid tok then find_subcommand cur tok else None) = None.
+Proof.
+  intros Hns. rewrite possible_subcommand_unfold in Hns.
+  destruct (utf8_valid tok) eqn:Hu; [|rewrite andb_false_r; reflexivity]. cbn [negb] in Hns.
+  rewrite <- (lvl_rel_is_set pc cur s_args_negate_subs Hrel).
+  destruct (is_set s_args_negate_subs pc && evaf); [rewrite andb_false_r; reflexivity|].
+  destruct b; [|reflexivity]. cbn [negb andb].
+  match type of Hns with match ?x with _ => _ end = _ => destruct x end; [discriminate|].
+  destruct Hrel as [_ [_ [_ Hsubs]]].
+  unfold find_subcommand in *. destruct (find (fun s => aliases_to s tok) (c_subs pc)) eqn:Ef; [discriminate|].
+  eapply find_none_rel; eauto.
+Qed.
+
+(** `<value>` of a single-valued positional: back in [ValueDone], index + 1, an argument was seen *)
+Lemma eng_pos_single tok a pos evaf :
+  possible_subcommand pc tok evaf = None -> plain_tok tok -> get_pos pc pos = Some a -> a_is_multiple a = false ->
+  shadow_step tok cur pos false ValueDone evaf = SNext cur (pos + 1) false ValueDone true.
 Proof.
   intros Hns Hpl Hg Hm. destruct (eng_plain_lex tok Hpl) as [He [Hl Hs]].
   assert (Hin : In a (c_args pc)) by (apply (UnparseProofs.get_pos_in pc pos a Hg)).
-  unfold shadow_step. cbn [negb]. rewrite (eng_no_sub pc cur tok _ Hrel Hns).
+  unfold shadow_step. cbn [negb]. rewrite (eng_not_sub tok _ evaf Hns).
   rewrite He, opt_allows_hyphen_vd, Hl, Hs.
   unfold parse_positional. rewrite find_pos_el, Hg.
   pose proof (single_num_args a Hin Hm) as Hn. unfold eng_num_args in Hn. rewrite Hn. reflexivity.
 Qed.
 
 (** the first value of a multi-valued positional: [Pos pos 1], same index *)
-Lemma eng_pos_first tok a pos :
+Lemma eng_pos_first tok a pos evaf :
   no_sub pc tok -> plain_tok tok -> get_pos pc pos = Some a -> 1 < eng_num_args a ->
-  shadow_step tok cur pos false ValueDone = SNext cur pos false (Pos pos 1).
+  shadow_step tok cur pos false ValueDone evaf = SNext cur pos false (Pos pos 1) true.
 Proof.
   intros Hns Hpl Hg Hn. destruct (eng_plain_lex tok Hpl) as [He [Hl Hs]].
   unfold shadow_step. cbn [negb]. rewrite (eng_no_sub pc cur tok _ Hrel Hns).
@@ -118,17 +135,18 @@ Proof. destruct arg; [reflexivity|]. cbn [opt_allows_hyphen]. apply andb_false_r
 
 (** a further value: the lookup for a subcommand happens only if THIS level has
     [subcommand_precedence_over_arg] *)
-Lemma eng_pos_more tok a pos k :
+Lemma eng_pos_more tok a pos k evaf :
   (is_set s_sub_precedence pc = true -> no_sub pc tok) -> plain_tok tok -> get_pos pc pos = Some a ->
   k + 1 < eng_num_args a ->
-  shadow_step tok cur pos false (Pos pos k) = SNext cur pos false (Pos pos (k + 1)).
+  shadow_step tok cur pos false (Pos pos k) evaf = SNext cur pos false (Pos pos (k + 1)) true.
 Proof.
   intros Hns Hpl Hg Hn. destruct (eng_plain_lex tok Hpl) as [He [Hl Hs]].
   unfold shadow_step. cbn [negb]. rewrite orb_false_r.
-  assert (Hsub : (if is_set s_sub_precedence cur && utf8_valid tok then find_subcommand cur tok else None) = None).
+  assert (Hsub : (if (is_set s_sub_precedence cur && negb (is_set s_args_negate_subs cur && evaf)) && utf8_valid tok
+                  then find_subcommand cur tok else None) = None).
   { rewrite <- (lvl_rel_is_set pc cur s_sub_precedence Hrel).
     destruct (is_set s_sub_precedence pc) eqn:Ep; [|reflexivity].
-    exact (eng_no_sub pc cur tok true Hrel (Hns eq_refl)). }
+    exact (eng_no_sub pc cur tok _ Hrel (Hns eq_refl)). }
   rewrite Hsub, He, opt_allows_hyphen_pos, Hl, Hs.
   unfold parse_positional. rewrite find_pos_el, Hg, N.eqb_refl.
   apply N.ltb_lt in Hn. unfold eng_num_args in Hn. rewrite Hn. reflexivity.
@@ -136,27 +154,29 @@ Qed.
 
 (** POS_INDEX AGREEMENT, options and single-valued positionals: along [pitems18] the engine's index moves from
     [pos] to [pos'] exactly as the parser's counter does ([EngineItems.loop_pitems18]) *)
-Theorem eng_pitems pos pre F pos' : pitems18 pc pos pre F pos' ->
-  shadow_run pre cur pos false ValueDone = SNext cur pos' false ValueDone.
+Theorem eng_pitems evaf pos pre F pos' : pitems18 pc evaf pos pre F pos' ->
+  shadow_run pre cur pos false ValueDone evaf = SNext cur pos' false ValueDone (evaf || negb (is_nil pre)).
 Proof.
-  induction 1 as [pos|pos toks F pre G pos' Hi Hp IH|pos tok a pre G pos' Hns Hpl Ht Hm Hp IH].
-  - reflexivity.
-  - rewrite shadow_run_app, (eng_item18 pc cur L toks F pos Hi). exact IH.
+  induction 1 as [evaf pos|evaf pos toks F pre G pos' Hi Hp IH|evaf pos tok a pre G pos' Hns Hpl Ht Hm Hp IH].
+  - cbn [shadow_run is_nil negb]. rewrite orb_false_r. reflexivity.
+  - rewrite shadow_run_app, (eng_item18 pc cur L toks F pos evaf Hi), IH.
+    pose proof (item18_nonempty pc toks F Hi) as Hne. destruct toks as [|t0 ts]; [discriminate|].
+    cbn [app is_nil negb orb]. rewrite orb_true_r. reflexivity.
   - cbn [shadow_run]. destruct Ht as [_ [Hg _]].
-    rewrite (eng_pos_single tok a pos Hns Hpl Hg Hm). exact IH.
+    rewrite (eng_pos_single tok a pos evaf Hns Hpl Hg Hm), IH. cbn [is_nil negb orb]. rewrite orb_true_r. reflexivity.
 Qed.
 
 Lemma eng_multi_more a pos : forall vs k,
   (is_set s_sub_precedence pc = true -> Forall (no_sub pc) vs) ->
   Forall (fun v => plain_tok v /\ takes_at pc pos a v) vs ->
   k + N.of_nat (length vs) < eng_num_args a ->
-  shadow_run vs cur pos false (Pos pos k) = SNext cur pos false (Pos pos (k + N.of_nat (length vs))).
+  shadow_run vs cur pos false (Pos pos k) true = SNext cur pos false (Pos pos (k + N.of_nat (length vs))) true.
 Proof.
   induction vs as [|v t IH]; intros k Hprec Hall Hn.
   - cbn [shadow_run length N.of_nat]. rewrite N.add_0_r. reflexivity.
   - inversion Hall as [|v0 t0 [Hpl Ht] Hall']; subst. cbn [shadow_run].
     destruct Ht as [_ [Hg _]].
-    rewrite (eng_pos_more v a pos k); [|intros Ep; specialize (Hprec Ep); inversion Hprec; assumption|exact Hpl|exact Hg|].
+    rewrite (eng_pos_more v a pos k true); [|intros Ep; specialize (Hprec Ep); inversion Hprec; assumption|exact Hpl|exact Hg|].
     2:{ cbn [length] in Hn. lia. }
     rewrite IH.
     + replace (k + 1 + N.of_nat (length t)) with (k + N.of_nat (length (v :: t))) by (cbn [length]; lia). reflexivity.
@@ -167,25 +187,27 @@ Qed.
 
 (** ... the values of a multi-valued positional: [Pos pos k] after [k] values, same index - the parser stands in
     [PSPos (a_id a)] at the same counter ([ChainWide.loop_multi]) *)
-Theorem eng_multi a pos v1 vs : multi_vals pc pos a v1 vs ->
+Theorem eng_multi a pos v1 vs evaf : multi_vals pc pos a v1 vs ->
   N.of_nat (length (v1 :: vs)) < eng_num_args a ->
-  shadow_run (v1 :: vs) cur pos false ValueDone = SNext cur pos false (Pos pos (N.of_nat (length (v1 :: vs)))).
+  shadow_run (v1 :: vs) cur pos false ValueDone evaf = SNext cur pos false (Pos pos (N.of_nat (length (v1 :: vs)))) true.
 Proof.
   intros [Hm [Hns [Hprec Hall]]] Hn. inversion Hall as [|v0 t0 [Hpl Ht] Hall']; subst.
   cbn [shadow_run]. destruct Ht as [_ [Hg _]].
-  rewrite (eng_pos_first v1 a pos Hns Hpl Hg) by (cbn [length] in Hn; lia).
+  rewrite (eng_pos_first v1 a pos evaf Hns Hpl Hg) by (cbn [length] in Hn; lia).
   rewrite (eng_multi_more a pos vs 1 Hprec Hall') by (cbn [length] in Hn; lia).
   replace (1 + N.of_nat (length vs)) with (N.of_nat (length (v1 :: vs))) by (cbn [length]; lia). reflexivity.
 Qed.
 
 (** a subcommand name behind the values of a multi-valued positional, on a level with
     [subcommand_precedence_over_arg]: the engine descends *)
-Lemma eng_pos_descend tok es pos k :
-  is_set s_sub_precedence pc = true -> utf8_valid tok = true -> find_subcommand cur tok = Some es ->
-  shadow_step tok cur pos false (Pos pos k) = SNext es 1 false ValueDone.
+Lemma eng_pos_descend tok es pos k evaf :
+  is_set s_sub_precedence pc = true -> (is_set s_args_negate_subs pc && evaf) = false ->
+  utf8_valid tok = true -> find_subcommand cur tok = Some es ->
+  shadow_step tok cur pos false (Pos pos k) evaf = SNext es 1 false ValueDone false.
 Proof.
-  intros Hp Hu Hf. unfold shadow_step. rewrite <- (lvl_rel_is_set pc cur s_sub_precedence Hrel), Hp, Hu.
-  cbn [orb andb]. rewrite Hf. reflexivity.
+  intros Hp Hng Hu Hf. unfold shadow_step.
+  rewrite <- (lvl_rel_is_set pc cur s_sub_precedence Hrel), <- (lvl_rel_is_set pc cur s_args_negate_subs Hrel), Hp, Hng, Hu.
+  cbn [orb andb negb]. rewrite Hf. reflexivity.
 Qed.
 End EnginePositionals.
 
@@ -209,44 +231,44 @@ Proof. intros [V Hsa Hal _]. constructor; assumption. Qed.
     positional [a] where the parser is in [PSPos (a_id a)] - as long as [a] can take more ([k] below the
     engine's [num_args]: the maximum of the range, unbounded for an appending positional) *)
 Inductive body18 (c : cmd) : list bytes -> (ps -> res ps) -> pstate_t -> N -> pstate -> Prop :=
-| b18_plain pre F pos' : pitems18 c 1 pre F pos' -> body18 c pre F PSValuesDone pos' ValueDone
-| b18_multi pre F pos' a v1 vs : pitems18 c 1 pre F pos' -> multi_vals c pos' a v1 vs ->
+| b18_plain pre F pos' : pitems18 c false 1 pre F pos' -> body18 c pre F PSValuesDone pos' ValueDone
+| b18_multi pre F pos' a v1 vs : pitems18 c false 1 pre F pos' -> multi_vals c pos' a v1 vs ->
     N.of_nat (length (v1 :: vs)) < eng_num_args a ->
     body18 c (pre ++ v1 :: vs) (fun st => do st' <- F st; push_all c a (v1 :: vs) st') (PSPos (a_id a)) pos'
            (Pos pos' (N.of_nat (length (v1 :: vs)))).
 
 (** the parser side ([ChainWide.loop_wbody] over the wider items) *)
-Lemma loop_body18 c pre F pst pos' est : body18 c pre F pst pos' est -> forall rest vaf st, fs_skip st = 0 ->
-  parse_loop c (pre ++ rest) (lsV 1 vaf) st =
-  (do st' <- F st; parse_loop c rest (mkL pst pos' (vaf || negb (is_nil pre)) false) st').
+Lemma loop_body18 c pre F pst pos' est : body18 c pre F pst pos' est -> forall rest st, fs_skip st = 0 ->
+  parse_loop c (pre ++ rest) (lsV 1 false) st =
+  (do st' <- F st; parse_loop c rest (mkL pst pos' (negb (is_nil pre)) false) st').
 Proof.
-  intros [pre0 F0 pos0 Hp|pre0 F0 pos0 a v1 vs Hp Hm _] rest vaf st Hfs.
-  - exact (loop_pitems18 c 1 pre0 F0 pos0 Hp rest vaf st Hfs).
-  - rewrite <- app_assoc. rewrite (loop_pitems18 c 1 pre0 F0 pos0 Hp ((v1 :: vs) ++ rest) vaf st Hfs).
+  intros [pre0 F0 pos0 Hp|pre0 F0 pos0 a v1 vs Hp Hm _] rest st Hfs.
+  - exact (loop_pitems18 c false 1 pre0 F0 pos0 Hp rest st Hfs).
+  - rewrite <- app_assoc. rewrite (loop_pitems18 c false 1 pre0 F0 pos0 Hp ((v1 :: vs) ++ rest) st Hfs).
     destruct (F0 st) as [st1|e s1|x]; cbn [rbind]; try reflexivity.
     rewrite (loop_multi c pos0 a v1 vs Hm rest _ st1).
-    replace (vaf || negb (is_nil (pre0 ++ v1 :: vs))) with true; [reflexivity|].
-    destruct pre0; cbn [app is_nil negb]; rewrite orb_true_r; reflexivity.
+    replace (negb (is_nil (pre0 ++ v1 :: vs))) with true; [reflexivity|].
+    destruct pre0; reflexivity.
 Qed.
 
 Lemma body18_fs c pre F pst pos' est : body18 c pre F pst pos' est -> forall st st', F st = ROk st' ->
   fs_skip st' = fs_skip st /\ fs_at st' = fs_at st.
 Proof.
   intros [pre0 F0 pos0 Hp|pre0 F0 pos0 a v1 vs Hp Hm _] st st' H.
-  - exact (pitems18_fs c 1 pre0 F0 pos0 Hp st st' H).
+  - exact (pitems18_fs c false 1 pre0 F0 pos0 Hp st st' H).
   - destruct (F0 st) as [st1|e s1|x] eqn:E; cbn [rbind] in H; try discriminate.
-    destruct (pitems18_fs c 1 pre0 F0 pos0 Hp st st1 E) as [H1 H2].
+    destruct (pitems18_fs c false 1 pre0 F0 pos0 Hp st st1 E) as [H1 H2].
     destruct (push_all_fs c a _ _ _ H) as [H3 H4]. rewrite H3, H4. split; assumption.
 Qed.
 
 (** STATE AND POS_INDEX AGREEMENT on one level, engine side (the parser side is [loop_body18]) *)
 Theorem eng_body pc cur pre F pst pos est : elevel pc cur -> body18 pc pre F pst pos est ->
-  shadow_run pre cur 1 false ValueDone = SNext cur pos false est.
+  shadow_run pre cur 1 false ValueDone false = SNext cur pos false est (negb (is_nil pre)).
 Proof.
   intros L [pre0 F0 pos0 Hp|pre0 F0 pos0 a v1 vs Hp Hm Hn].
-  - exact (eng_pitems pc cur L 1 pre0 F0 pos0 Hp).
-  - rewrite shadow_run_app, (eng_pitems pc cur L 1 pre0 F0 pos0 Hp).
-    exact (eng_multi pc cur L a pos0 v1 vs Hm Hn).
+  - exact (eng_pitems pc cur L false 1 pre0 F0 pos0 Hp).
+  - rewrite shadow_run_app, (eng_pitems pc cur L false 1 pre0 F0 pos0 Hp).
+    rewrite (eng_multi pc cur L a pos0 v1 vs _ Hm Hn). destruct pre0; reflexivity.
 Qed.
 
 (** where the parser looks for a subcommand name: between arguments, or - while a positional is being filled -
@@ -258,10 +280,10 @@ Definition may_select (c : cmd) (pst : pstate_t) : Prop :=
     every [body_i] the arguments of the level reached ([body18]), every [n_i] a name or alias of a subcommand of
     that level which is not called [help], read where the parser looks for one ([may_select]); a level that sets
     [args_conflicts_with_subcommands] is left only BEFORE any of its own arguments ([body_i = []]); the last level
-    [pcf] (lazily built) ends between arguments ([pitems]) with the positional counter [posf]; [vf] = an argument
-    of [pcf] was seen *)
+    [pcf] (lazily built) ends between arguments ([pitems18]) with the positional counter [posf]; [vf] = an argument
+    of [pcf] was seen - the parser's flag [valid_arg_found] and, since the repair, the engine's *)
 Inductive pline : cmd -> list bytes -> cmd -> N -> bool -> Prop :=
-| pl_here pc pre F pos' : lvlw pc -> pitems18 pc 1 pre F pos' -> pline pc pre pc pos' (negb (is_nil pre))
+| pl_here pc pre F pos' : lvlw pc -> pitems18 pc false 1 pre F pos' -> pline pc pre pc pos' (negb (is_nil pre))
 | pl_down pc pre F pst pos' est tok sc0 pc' rest pcf posf vf :
     lvlw pc -> body18 pc pre F pst pos' est -> may_select pc pst ->
     (is_set s_args_negate_subs pc = true -> pre = []) ->
@@ -276,34 +298,40 @@ Proof. induction 1; assumption. Qed.
 Theorem cline_pline pc line pcf : cline pc line pcf -> exists vf, pline pc line pcf 1 vf.
 Proof.
   induction 1 as [pc pre Hl [F Hp]|pc pre tok sc0 pc' rest pcf Hl [F Hp] Hu Hf Hnh Hb Hline [vf IH]].
-  - eexists. eapply pl_here; [exact (lvl18_lvlw pc Hl)|exact (pitems_pitems18 pc 1 pre F 1 (prefix_pitems pc pre F Hp 1))].
+  - eexists. eapply pl_here; [exact (lvl18_lvlw pc Hl)|exact (pitems_pitems18 pc 1 pre F 1 (prefix_pitems pc pre F Hp 1) false)].
   - exists vf. eapply (pl_down pc pre F PSValuesDone 1 ValueDone); try eassumption.
     + exact (lvl18_lvlw pc Hl).
-    + apply b18_plain. exact (pitems_pitems18 pc 1 pre F 1 (prefix_pitems pc pre F Hp 1)).
+    + apply b18_plain. exact (pitems_pitems18 pc 1 pre F 1 (prefix_pitems pc pre F Hp 1) false).
     + exact I.
     + intros E. rewrite (l_neg pc Hl) in E. discriminate.
 Qed.
 
-Lemma eng_descend_vd tok cur es pos : utf8_valid tok = true -> find_subcommand cur tok = Some es ->
-  shadow_step tok cur pos false ValueDone = SNext es 1 false ValueDone.
-Proof. intros Hu Hf. unfold shadow_step. cbn [negb]. rewrite orb_true_r, Hu. cbn [andb]. rewrite Hf. reflexivity. Qed.
+Lemma eng_descend_vd tok cur es pos evaf : (is_set s_args_negate_subs cur && evaf) = false ->
+  utf8_valid tok = true -> find_subcommand cur tok = Some es ->
+  shadow_step tok cur pos false ValueDone evaf = SNext es 1 false ValueDone false.
+Proof.
+  intros Hng Hu Hf. unfold shadow_step. cbn [negb]. rewrite orb_true_r, Hng, Hu. cbn [andb negb]. rewrite Hf. reflexivity.
+Qed.
 
 (** STATE, LEVEL AND POS_INDEX AGREEMENT, engine side: along a line the shadow parse ends in [ValueDone], not
     escaped, at a level related to the parser's final level, with [pos_index] = the parser's positional counter *)
 Theorem eng_pline pc line pcf posf vf : pline pc line pcf posf vf -> forall cur, lvl_rel pc cur ->
-  exists curf, shadow_run line cur 1 false ValueDone = SNext curf posf false ValueDone /\ lvl_rel pcf curf.
+  exists curf, shadow_run line cur 1 false ValueDone false = SNext curf posf false ValueDone vf /\ lvl_rel pcf curf.
 Proof.
   induction 1 as [pc pre F pos' Hl Hp|pc pre F pst pos' est tok sc0 pc' rest pcf posf vf Hl Hbd Hsel Hneg Hu Hf Hnh Hb Hline IH];
     intros cur Hrel.
-  - exists cur. split; [|exact Hrel]. exact (eng_pitems pc cur (lvlw_el pc cur Hl Hrel) 1 pre F pos' Hp).
+  - exists cur. split; [|exact Hrel]. exact (eng_pitems pc cur (lvlw_el pc cur Hl Hrel) false 1 pre F pos' Hp).
   - pose proof (lvlw_el pc cur Hl Hrel) as L.
     rewrite shadow_run_app, (eng_body pc cur pre F pst pos' est L Hbd). cbn [shadow_run].
     destruct (level_descent pc cur tok sc0 Hrel (w_app pc Hl) Hf (not_help_name sc0 Hnh)) as [es [pc'' [Hfe [Hb' Hrel']]]].
     rewrite Hb in Hb'. inversion Hb'; subst pc''.
-    assert (Hstep : shadow_step tok cur pos' false est = SNext es 1 false ValueDone).
+    assert (Hng : (is_set s_args_negate_subs pc && negb (is_nil pre)) = false).
+    { destruct (is_set s_args_negate_subs pc) eqn:En; [|reflexivity]. rewrite (Hneg eq_refl). reflexivity. }
+    assert (Hstep : shadow_step tok cur pos' false est (negb (is_nil pre)) = SNext es 1 false ValueDone false).
     { destruct Hbd as [pre0 F0 pos0 Hp|pre0 F0 pos0 a v1 vs Hp Hm Hn].
-      - exact (eng_descend_vd tok cur es pos0 Hu Hfe).
-      - exact (eng_pos_descend pc cur L tok es pos0 _ Hsel Hu Hfe). }
+      - apply (eng_descend_vd tok cur es pos0); [|exact Hu|exact Hfe].
+        rewrite <- (lvl_rel_is_set pc cur s_args_negate_subs Hrel). exact Hng.
+      - exact (eng_pos_descend pc cur L tok es pos0 _ _ Hsel Hng Hu Hfe). }
     rewrite Hstep. apply IH. exact Hrel'.
 Qed.
 
@@ -346,7 +374,7 @@ Lemma gmw_levelw c pre F pst pos' est tail : body18 c pre F pst pos' est ->
 Proof.
   intros Hbd Ht f st0 Hfs. destruct f as [|f]; [intros e st H; discriminate H|].
   rewrite gmw_unfold. apply post_no_unknown. rewrite parsed_of_dispatch.
-  rewrite (loop_body18 c pre F pst pos' est Hbd tail false st0 Hfs). cbn [orb].
+  rewrite (loop_body18 c pre F pst pos' est Hbd tail st0 Hfs).
   destruct (F st0) as [st'|e1 s1|x] eqn:EF; cbn [rbind].
   - apply Ht. destruct (body18_fs c pre F pst pos' est Hbd st0 st' EF) as [H1 _].
     rewrite H1. exact Hfs.
@@ -533,6 +561,15 @@ Proof.
   exists curf. rewrite Hrun. split; [reflexivity|exact Hrelf].
 Qed.
 
+(** ... and the engine's [valid_arg_found] IS the parser's flag [vf] at the final level (the loop of [complete] as the
+    fold [shadow_run]; [start_walk] does not expose the flag) *)
+Theorem flag_agreement c0 bin line pcf posf vf f b :
+  tree_all unb c0 -> build_full f c0 = BOk b -> pline (build_self (with_bin c0 bin)) line pcf posf vf ->
+  exists curf, shadow_run line b 1 false ValueDone false = SNext curf posf false ValueDone vf /\ lvl_rel pcf curf.
+Proof.
+  intros Hu Hb Hline. exact (eng_pline _ line pcf posf vf Hline b (root_rel _ c0 bin b Hu Hb)).
+Qed.
+
 (** * END TO END, lines with positional values *)
 Theorem candidate_accepted_pline tbl c0 bin line w after l cd pcf posf vf e :
   tree_all unb c0 -> is_set s_no_binary_name c0 = false ->
@@ -569,10 +606,10 @@ Qed.
     [est] at index [pos] where the parser's loop stands in [pst] at counter [pos] - [ValueDone] / [PSValuesDone], or
     [Pos pos k] / [PSPos (a_id a)] with [a] the positional at [pos] for both ([find_pos] = [get_pos]) *)
 Theorem state_agreement_positionals pc cur pre F pst pos est : elevel pc cur -> body18 pc pre F pst pos est ->
-  shadow_run pre cur 1 false ValueDone = SNext cur pos false est /\
-  (forall rest vaf st, fs_skip st = 0 ->
-     parse_loop pc (pre ++ rest) (lsV 1 vaf) st =
-     (do st' <- F st; parse_loop pc rest (mkL pst pos (vaf || negb (is_nil pre)) false) st')) /\
+  shadow_run pre cur 1 false ValueDone false = SNext cur pos false est (negb (is_nil pre)) /\
+  (forall rest st, fs_skip st = 0 ->
+     parse_loop pc (pre ++ rest) (lsV 1 false) st =
+     (do st' <- F st; parse_loop pc rest (mkL pst pos (negb (is_nil pre)) false) st')) /\
   match est with
   | ValueDone => pst = PSValuesDone
   | Pos i k => i = pos /\ exists a, pst = PSPos (a_id a) /\ find_pos cur pos = Some a /\ get_pos pc pos = Some a /\
@@ -676,13 +713,13 @@ Definition line_of (pre2 : list bytes) : list bytes := pre0 ++ w_remote :: (pre1
 Definition lineA : list bytes := line_of [].
 Definition lineB : list bytes := line_of [[110; 49]].
 
-Lemma ex_pline pre2 F posf : pitems18 pc2 1 pre2 F posf -> pline root (line_of pre2) pc2 posf (negb (is_nil pre2)).
+Lemma ex_pline pre2 F posf : pitems18 pc2 false 1 pre2 F posf -> pline root (line_of pre2) pc2 posf (negb (is_nil pre2)).
 Proof.
   intros Hp2. unfold line_of.
   eapply (pl_down root pre0 _ PSValuesDone 2 ValueDone w_remote _ pc1).
   - apply lvlw_b_ok. vmr.
-  - apply b18_plain. eapply (p18_opt _ 1 [[45; 118]] _ [b1 97]); [apply i18_base; flag_cluster 118|].
-    eapply (p18_pos _ 1 (b1 97) _ []); [solve_nosub|solve_plain|solve_takes|vmr|apply p18_nil].
+  - apply b18_plain. eapply (p18_opt _ false 1 [[45; 118]] _ [b1 97]); [apply i18_base; flag_cluster 118|].
+    eapply (p18_pos _ true 1 (b1 97) _ []); [vmr|solve_plain|solve_takes|vmr|apply p18_nil].
   - exact I.
   - intros E. vm_compute in E. discriminate E.
   - vmr.
@@ -692,14 +729,14 @@ Proof.
   - unfold pre1. eapply (pl_down pc1 _ _ _ 1 _ [97; 100] _ pc2).
     + apply lvlw_b_ok. vmr.
     + eapply (b18_multi pc1 _ _ 1 _ [102; 49] [[102; 50]]).
-      * eapply (p18_opt _ 1 [ddw w_pair; b1 97; b1 98]).
+      * eapply (p18_opt _ false 1 [ddw w_pair; b1 97; b1 98]).
         { eapply (i18_long_multi _ (ddw w_pair) w_pair _ _ [b1 97; b1 98]);
             [solve_nosub|vmr|vmr|vmr|vmr|vmr|vmr|discriminate|vmr|].
           repeat (apply Forall_cons; [split; [solve_nosub|split; [solve_plain|vmr]]|]). apply Forall_nil. }
-        eapply (p18_opt _ 1 [[45; 116; 61; 120]]).
+        eapply (p18_opt _ true 1 [[45; 116; 61; 120]]).
         { eapply (i18_short_eq _ [45; 116; 61; 120] [116; 61; 120] 116 [120]);
             [solve_nosub|vmr|vmr|vmr|vmr|vmr|vmr|vmr|apply no_hyphen_of_args; vmr]. }
-        eapply (p18_opt _ 1 [ddw w_tag; b1 120] _ []); [|apply p18_nil].
+        eapply (p18_opt _ true 1 [ddw w_tag; b1 120] _ []); [|apply p18_nil].
         apply i18_base. eapply it_sep; [solve_nosub|vmr|vmr|vmr|vmr|vmr|vmr|vmr|solve_nosub|vmr|vmr|vmr|vmr].
       * refine (conj _ (conj _ (conj _ _))); cycle 3.
         -- repeat (apply Forall_cons; [split; [solve_plain|solve_takes]|]). apply Forall_nil.
@@ -717,12 +754,12 @@ Proof.
 Qed.
 
 Lemma ex_plineA : pline root lineA pc2 1 false.
-Proof. exact (ex_pline [] _ 1 (p18_nil pc2 1)). Qed.
+Proof. exact (ex_pline [] _ 1 (p18_nil pc2 false 1)). Qed.
 
 Lemma ex_plineB : pline root lineB pc2 2 true.
 Proof.
   refine (ex_pline [[110; 49]] _ 2 _).
-  eapply (p18_pos _ 1 [110; 49] _ []); [solve_nosub|solve_plain|solve_takes|vmr|apply p18_nil].
+  eapply (p18_pos _ false 1 [110; 49] _ []); [vmr|solve_plain|solve_takes|vmr|apply p18_nil].
 Qed.
 
 (** `p <lineA> d<TAB>` offers `deep` (no argument of `add` seen: the parser still looks for subcommands);
@@ -761,9 +798,10 @@ End WideExample.
 (** * Part 5: [args_conflicts_with_subcommands]
 
     The parser keeps, per level, the flag [valid_arg_found] ("an argument of this level was seen"); on a level that
-    sets [args_conflicts_with_subcommands] a word is looked up as a subcommand only while the flag is off.  The
-    engine has no such flag and never reads the setting: it descends on every subcommand name it meets between
-    arguments.  Where the two agree, exactly: *)
+    sets [args_conflicts_with_subcommands] a word is looked up as a subcommand only while the flag is off.  Before the
+    repair (finding C18-args-conflict) the engine had no such flag and never read the setting: it descended on every
+    subcommand name it met between arguments ([shadow_step_before_fix], witnesses below).  The repaired engine keeps
+    the same flag, per level; the two machines agree: *)
 
 Lemma negate_no_sub c tok : is_set s_args_negate_subs c = true -> possible_subcommand c tok true = None.
 Proof. intros H. rewrite possible_subcommand_unfold, H. destruct (negb (utf8_valid tok)); reflexivity. Qed.
@@ -788,21 +826,41 @@ Lemma conflict_kind c tok : has_subcommands c = true -> is_set s_args_negate_sub
   e_kind (match_arg_error c tok true false) = EArgumentConflict.
 Proof. intros Hs Hn. unfold match_arg_error. cbn [andb]. rewrite Hs, Hn. reflexivity. Qed.
 
-(** THE CHARACTERISATION.  Level [pc] sets [args_conflicts_with_subcommands]; [pre] are arguments of the level
-    (options, single-valued positionals: [pitems18]); [tok] names the subcommand [sc0].
-    (1) the ENGINE descends to the child, whatever [pre] is;
-    (2) [pre = []]: the PARSER dispatches to the same child - the levels agree;
-    (3) [pre <> []]: the parser does not look [tok] up as a subcommand; with a positional [a] left at the counter it
-        takes [tok] as the value of [a] and STAYS at [pc] (the engine is one level deeper from here on); with none
-        left it rejects the line: ArgumentConflict. *)
+(** the engine's step on a plain word that it does not read as a subcommand, between arguments: a positional value *)
+Lemma eng_plain_positional pc cur tok pos evaf : elevel pc cur ->
+  possible_subcommand pc tok evaf = None -> plain_tok tok ->
+  shadow_step tok cur pos false ValueDone evaf =
+  match parse_positional cur pos false ValueDone with
+  | Some (st, pi) => SNext cur pi false st true
+  | None => SPanic 673
+  end.
+Proof.
+  intros L Hns Hpl. destruct (eng_plain_lex tok Hpl) as [He [Hl Hs]].
+  unfold shadow_step. cbn [negb]. rewrite (eng_not_sub pc cur L tok _ evaf Hns).
+  rewrite He, opt_allows_hyphen_vd, Hl, Hs. reflexivity.
+Qed.
+
+(** THE CHARACTERISATION (repaired engine).  Level [pc] sets [args_conflicts_with_subcommands]; [pre] are arguments of
+    the level (options, single-valued positionals: [pitems18]); [tok] names the subcommand [sc0].
+    (1) [pre = []]: the engine descends to the child and the parser dispatches to the same child;
+    (2) [pre <> []]: NEITHER machine reads [tok] as a subcommand.  The engine counts it as a positional value and stays
+        at the level; the parser, with a positional [a] left at the counter, takes [tok] as the value of [a] and stays at
+        [pc] - and with none left rejects the line: ArgumentConflict. *)
 Theorem args_conflict_levels pc cur pre F pos tok sc0 :
   lvlw pc -> lvl_rel pc cur -> is_set s_args_negate_subs pc = true ->
-  pitems18 pc 1 pre F pos -> utf8_valid tok = true -> find_subcommand pc tok = Some sc0 -> aliases_to sc0 s_help = false ->
-  (exists es pc', shadow_run (pre ++ [tok]) cur 1 false ValueDone = SNext es 1 false ValueDone /\
-                  build_subcommand pc (c_name sc0) = Some pc' /\ lvl_rel pc' es) /\
-  (pre = [] -> forall rest st, exists n', find_subcommand pc n' = Some sc0 /\
-     parse_loop pc (tok :: rest) (lsV 1 false) st = ROk (LSub n' false false st rest)) /\
-  (pre <> [] -> plain_tok tok -> forall rest st, fs_skip st = 0 ->
+  pitems18 pc false 1 pre F pos -> utf8_valid tok = true -> find_subcommand pc tok = Some sc0 -> aliases_to sc0 s_help = false ->
+  (pre = [] ->
+     (exists es pc', shadow_step tok cur 1 false ValueDone false = SNext es 1 false ValueDone false /\
+                     build_subcommand pc (c_name sc0) = Some pc' /\ lvl_rel pc' es) /\
+     forall rest st, exists n', find_subcommand pc n' = Some sc0 /\
+       parse_loop pc (tok :: rest) (lsV 1 false) st = ROk (LSub n' false false st rest)) /\
+  (pre <> [] -> plain_tok tok ->
+     shadow_run (pre ++ [tok]) cur 1 false ValueDone false =
+       match parse_positional cur pos false ValueDone with
+       | Some (st, pi) => SNext cur pi false st true
+       | None => SPanic 673
+       end /\
+     forall rest st, fs_skip st = 0 ->
      (forall a, takes_at pc pos a tok ->
         parse_loop pc (pre ++ tok :: rest) (lsV 1 false) st =
         (do st' <- F st; do st'' <- pos_push pc a tok st'; parse_loop pc rest (after_pos a pos) st'')) /\
@@ -815,35 +873,40 @@ Proof.
   pose proof (lvlw_el pc cur Hl Hrel) as L.
   assert (Hin : In sc0 (c_subs pc) /\ aliases_to sc0 tok = true) by (apply find_some in Hf; exact Hf).
   destruct Hin as [Hin Hal].
-  split; [|split].
-  - destruct (level_descent pc cur tok sc0 Hrel (w_app pc Hl) Hf (not_help_name sc0 Hnh)) as [es [pc' [Hfe [Hb Hrel']]]].
-    exists es, pc'. split; [|split; assumption].
-    rewrite shadow_run_app, (eng_pitems pc cur L 1 pre F pos Hp). cbn [shadow_run].
-    rewrite (eng_descend_vd tok cur es pos Hu Hfe). reflexivity.
-  - intros _ rest st.
-    destruct (accept_sub_step pc sc0 tok rest 1 false st (w_app pc Hl) Hin Hal Hu (andb_false_r _))
-      as [n' [Ha' [Hf' [_ Hloop]]]].
-    exists n'. split; [exact Hf'|]. unfold lsV. rewrite Hloop.
-    assert (Hn' : beq n' s_help = false).
-    { apply beq_neq. intros ->. rewrite Ha' in Hnh. discriminate. }
-    rewrite Hn'. reflexivity.
-  - intros Hne Hpl rest st Hfs.
+  split.
+  - intros _. split.
+    + destruct (level_descent pc cur tok sc0 Hrel (w_app pc Hl) Hf (not_help_name sc0 Hnh)) as [es [pc' [Hfe [Hb Hrel']]]].
+      exists es, pc'. split; [|split; assumption].
+      apply (eng_descend_vd tok cur es 1 false); [apply andb_false_r|exact Hu|exact Hfe].
+    + intros rest st.
+      destruct (accept_sub_step pc sc0 tok rest 1 false st (w_app pc Hl) Hin Hal Hu (andb_false_r _))
+        as [n' [Ha' [Hf' [_ Hloop]]]].
+      exists n'. split; [exact Hf'|]. unfold lsV. rewrite Hloop.
+      assert (Hn' : beq n' s_help = false).
+      { apply beq_neq. intros ->. rewrite Ha' in Hnh. discriminate. }
+      rewrite Hn'. reflexivity.
+  - intros Hne Hpl.
     assert (Hvaf : negb (is_nil pre) = true) by (destruct pre; [contradiction|reflexivity]).
-    assert (Hloop : parse_loop pc (pre ++ tok :: rest) (lsV 1 false) st =
-                    (do st' <- F st; parse_loop pc (tok :: rest) (lsV pos true) st')).
-    { rewrite (loop_pitems18 pc 1 pre F pos Hp (tok :: rest) false st Hfs). cbn [orb]. rewrite Hvaf. reflexivity. }
-    assert (Hns : (if is_set s_sub_precedence pc || true then possible_subcommand pc tok true else None) = None).
-    { rewrite orb_true_r. exact (negate_no_sub pc tok Hneg). }
     split.
-    + intros a Ht. rewrite Hloop. destruct (F st) as [st'|e1 s1|x]; cbn [rbind]; try reflexivity.
-      unfold lsV. exact (loop_pos_step pc PSValuesDone tok a rest pos true st' I Hns Hpl Ht).
-    + intros Hpp Hg Hext. split.
-      * rewrite Hloop. destruct (F st) as [st'|e1 s1|x]; cbn [rbind]; try reflexivity.
-        unfold lsV. exact (loop_pos_none pc PSValuesDone tok rest pos true st' I Hns Hpl Hpp Hg Hext).
-      * apply conflict_kind; [|exact Hneg]. unfold has_subcommands. destruct (c_subs pc); [destruct Hin|reflexivity].
+    + rewrite shadow_run_app, (eng_pitems pc cur L false 1 pre F pos Hp). cbn [shadow_run orb]. rewrite Hvaf.
+      rewrite (eng_plain_positional pc cur tok pos true L (negate_no_sub pc tok Hneg) Hpl).
+      destruct (parse_positional cur pos false ValueDone) as [[st0 pi0]|]; reflexivity.
+    + intros rest st Hfs.
+      assert (Hloop : parse_loop pc (pre ++ tok :: rest) (lsV 1 false) st =
+                      (do st' <- F st; parse_loop pc (tok :: rest) (lsV pos true) st')).
+      { rewrite (loop_pitems18 pc false 1 pre F pos Hp (tok :: rest) st Hfs). cbn [orb]. rewrite Hvaf. reflexivity. }
+      assert (Hns : (if is_set s_sub_precedence pc || true then possible_subcommand pc tok true else None) = None).
+      { rewrite orb_true_r. exact (negate_no_sub pc tok Hneg). }
+      split.
+      * intros a Ht. rewrite Hloop. destruct (F st) as [st'|e1 s1|x]; cbn [rbind]; try reflexivity.
+        unfold lsV. exact (loop_pos_step pc PSValuesDone tok a rest pos true st' I Hns Hpl Ht).
+      * intros Hpp Hg Hext. split.
+        -- rewrite Hloop. destruct (F st) as [st'|e1 s1|x]; cbn [rbind]; try reflexivity.
+           unfold lsV. exact (loop_pos_none pc PSValuesDone tok rest pos true st' I Hns Hpl Hpp Hg Hext).
+        -- apply conflict_kind; [|exact Hneg]. unfold has_subcommands. destruct (c_subs pc); [destruct Hin|reflexivity].
 Qed.
 
-(** ** the witnesses (replayed on the real crate: corpus/C18/accept.args-conflict.cases) *)
+(** ** the witnesses (corpus/C18/accept.args-conflict.cases: the unrepaired crate fails on them) *)
 Module Conflict.
 Definition w_sub : bytes := [115; 117; 98].
 Definition w_opt : bytes := [111; 112; 116].
@@ -860,50 +923,76 @@ Definition c2 : cmd :=
 Definition f : bytes := [45; 102].
 Definition has_cand (v : bytes) (i : cid) (r : cres) : bool :=
   match r with COk l => existsb (fun cd => beq (cd_value cd) v && opt_cid_eqb (cd_id cd) (Some i)) l | _ => false end.
+Definition level_of (w : walk) : option bytes :=
+  match w with WAt _ cur _ ValueDone false => Some (c_name cur) | _ => None end.
 Definition level_at (c : cmd) (args : list bytes) (i : N) : option bytes :=
-  match build_full (build_fuel c) c with
-  | BOk b => match start_walk b args i with WAt _ cur _ ValueDone false => Some (c_name cur) | _ => None end
-  | _ => None end.
+  match build_full (build_fuel c) c with BOk b => level_of (start_walk b args i) | _ => None end.
+Definition level_at_before_fix (c : cmd) (args : list bytes) (i : N) : option bytes :=
+  match build_full (build_fuel c) c with BOk b => level_of (start_walk_before_fix b args i) | _ => None end.
 Definition kind_of (o : outcome) : option ekind := match o with OErr e => Some (e_kind e) | _ => None end.
 Definition accepted (o : outcome) : bool := match o with OOk _ => true | _ => false end.
 End Conflict.
 
-(** W1 (no positional): `p -f <TAB>` offers the SUBCOMMAND candidate `sub` (the engine does not know that the parser
-    no longer looks for subcommands); the parser rejects `p -f sub`: ArgumentConflict - not an unknown-token kind,
-    the acceptance clause as read by [unknown_kind] is not violated; `p -f sub <TAB>`: the engine is at `sub`.
-    W2 (a positional <file>): `p -f sub` is ACCEPTED by the parser - `sub` is the value of <file>, the level is
-    still `p` -; the engine stands at the level of `sub` and offers its option `--opt` (id arg::opt); the completed
-    line `p -f sub --opt` is rejected: UnknownArgument.  The hypothesis of [pl_down] cannot be dropped. *)
-Theorem args_conflict_refuted :
+(** BEFORE / AFTER.  W2, `p(-f; <file>; args_conflicts) -> sub(--opt)`: the parser ACCEPTS `p -f sub` - `sub` is the value
+    of <file>, the level is still `p` -; the completed line `p -f sub --opt` is rejected: UnknownArgument.
+    Before the repair the engine stood at the level of `sub` behind `p -f sub` and offered its option `--opt`
+    (id arg::opt): a candidate of the wrong level, rejected as unknown by the parser behind a line it accepts.
+    After: the engine stands at `p` and does not offer `--opt`.
+    W1 (no positional), unchanged by the repair: `p -f <TAB>` offers the SUBCOMMAND candidate `sub`; the parser
+    rejects `p -f sub` with ArgumentConflict - not an unknown-token kind ([complete_arg] is not told the flag). *)
+Theorem args_conflict_before_after :
+  (* W2: the parser *)
+  Conflict.accepted (parse_top Conflict.c2 [[112]; Conflict.f; Conflict.w_sub]) = true /\
+  Conflict.kind_of (parse_top Conflict.c2 [[112]; Conflict.f; Conflict.w_sub; 45 :: 45 :: Conflict.w_opt]) = Some EUnknownArgument /\
+  (* W2: before *)
+  Conflict.level_at_before_fix Conflict.c2 [[112]; Conflict.f; Conflict.w_sub; [45; 45]] 3 = Some Conflict.w_sub /\
+  Conflict.has_cand (45 :: 45 :: Conflict.w_opt) (IdArg Conflict.w_opt)
+    (complete_model_before_fix [] Conflict.c2 [[112]; Conflict.f; Conflict.w_sub; [45; 45]] 3) = true /\
+  (* W2: after *)
+  Conflict.level_at Conflict.c2 [[112]; Conflict.f; Conflict.w_sub; [45; 45]] 3 = Some [112] /\
+  Conflict.has_cand (45 :: 45 :: Conflict.w_opt) (IdArg Conflict.w_opt)
+    (complete_model [] Conflict.c2 [[112]; Conflict.f; Conflict.w_sub; [45; 45]] 3) = false /\
   (* W1 *)
   Conflict.has_cand Conflict.w_sub (IdCmd Conflict.w_sub) (complete_model [] Conflict.c1 [[112]; Conflict.f; []] 2) = true /\
   Conflict.kind_of (parse_top Conflict.c1 [[112]; Conflict.f; Conflict.w_sub]) = Some EArgumentConflict /\
-  Conflict.level_at Conflict.c1 [[112]; Conflict.f; Conflict.w_sub; []] 3 = Some Conflict.w_sub /\
-  (* W2 *)
-  Conflict.accepted (parse_top Conflict.c2 [[112]; Conflict.f; Conflict.w_sub]) = true /\
-  Conflict.level_at Conflict.c2 [[112]; Conflict.f; Conflict.w_sub; [45; 45]] 3 = Some Conflict.w_sub /\
-  Conflict.has_cand (45 :: 45 :: Conflict.w_opt) (IdArg Conflict.w_opt)
-    (complete_model [] Conflict.c2 [[112]; Conflict.f; Conflict.w_sub; [45; 45]] 3) = true /\
-  Conflict.kind_of (parse_top Conflict.c2 [[112]; Conflict.f; Conflict.w_sub; 45 :: 45 :: Conflict.w_opt]) = Some EUnknownArgument.
+  Conflict.level_at_before_fix Conflict.c1 [[112]; Conflict.f; Conflict.w_sub; []] 3 = Some Conflict.w_sub /\
+  Conflict.level_at Conflict.c1 [[112]; Conflict.f; Conflict.w_sub; []] 3 = Some [112].
 Proof. vm_compute. repeat split; reflexivity. Qed.
 
 (** non-vacuity of [args_conflict_levels]: the hypotheses hold for the two witness commands, line `-f sub` *)
 Example ex_conflict_hyps :
   let r1 := build_self (with_bin Conflict.c1 [112]) in
   let r2 := build_self (with_bin Conflict.c2 [112]) in
-  (lvlw r1 /\ is_set s_args_negate_subs r1 = true /\ (exists F, pitems18 r1 1 [Conflict.f] F 1) /\
+  (lvlw r1 /\ is_set s_args_negate_subs r1 = true /\ (exists F, pitems18 r1 false 1 [Conflict.f] F 1) /\
    utf8_valid Conflict.w_sub = true /\ (exists sc0, find_subcommand r1 Conflict.w_sub = Some sc0 /\ aliases_to sc0 s_help = false) /\
    plain_tok Conflict.w_sub /\ pos_plain r1 /\ get_pos r1 1 = None /\ is_set s_allow_external r1 = false) /\
-  (lvlw r2 /\ is_set s_args_negate_subs r2 = true /\ (exists F, pitems18 r2 1 [Conflict.f] F 1) /\
+  (lvlw r2 /\ is_set s_args_negate_subs r2 = true /\ (exists F, pitems18 r2 false 1 [Conflict.f] F 1) /\
    plain_tok Conflict.w_sub /\ exists a, takes_at r2 1 a Conflict.w_sub).
 Proof.
   cbv zeta. split.
   - split; [apply lvlw_b_ok; vmr|]. split; [vmr|]. split.
-    { eexists. eapply (p18_opt _ 1 [Conflict.f] _ []); [apply i18_base; flag_cluster 102|apply p18_nil]. }
+    { eexists. eapply (p18_opt _ false 1 [Conflict.f] _ []); [apply i18_base; flag_cluster 102|apply p18_nil]. }
     split; [vmr|]. split; [eexists; split; vmr|]. split; [solve_plain|]. split; [split; vmr|]. split; vmr.
   - split; [apply lvlw_b_ok; vmr|]. split; [vmr|]. split.
-    { eexists. eapply (p18_opt _ 1 [Conflict.f] _ []); [apply i18_base; flag_cluster 102|apply p18_nil]. }
+    { eexists. eapply (p18_opt _ false 1 [Conflict.f] _ []); [apply i18_base; flag_cluster 102|apply p18_nil]. }
     split; [solve_plain|]. eexists. solve_takes.
+Qed.
+
+(** ... and the END-TO-END theorem now covers such lines: `p -f sub` for W2 is in [pline] - the subcommand NAME `sub`
+    is the value of <file> ([p18_pos]: not read as a subcommand where it stands) -, final level `p`, counter 2; the
+    candidate `-f` for the word `-` is in the class *)
+Example ex_conflict_pline :
+  let r2 := build_self (with_bin Conflict.c2 [112]) in
+  pline r2 [Conflict.f; Conflict.w_sub] r2 2 true /\
+  (match complete_model [] Conflict.c2 ([112] :: [Conflict.f; Conflict.w_sub] ++ [[45]]) 3 with
+   | COk l => existsb (fun cd => beq (cd_value cd) Conflict.f && cand_classw_b r2 2 true [45] cd) l
+   | _ => false end = true).
+Proof.
+  cbv zeta. split; [|vmr].
+  change true with (negb (is_nil [Conflict.f; Conflict.w_sub])).
+  eapply pl_here; [apply lvlw_b_ok; vmr|].
+  eapply (p18_opt _ false 1 [Conflict.f] _ [Conflict.w_sub]); [apply i18_base; flag_cluster 102|].
+  eapply (p18_pos _ true 1 Conflict.w_sub _ []); [vmr|solve_plain|solve_takes|vmr|apply p18_nil].
 Qed.
 
 (** [subcommand_precedence_over_arg] is read from the level the positional belongs to, never from the root:
